@@ -29,10 +29,11 @@ def _apply(root, variant):
 
 
 def apply_unified(diff_text, read):
-    """apply a `git diff` to file texts in memory (exact positions, no fuzz).  read(rel) -> text.  Returns {rel: new text} or None when a
-    hunk does not match (the tree is not the one the patch was made for)."""
+    """apply a `git diff` to file texts in memory.  Like `git apply`, a hunk whose context is found a few lines away from the recorded
+    position (the file gained or lost lines elsewhere) is applied there; no fuzz inside a hunk.  read(rel) -> text.
+    Returns {rel: new text} or None when a hunk does not match."""
     import re
-    out, cur, lines, pos, res = {}, None, None, 0, None
+    out = {}
     files = re.split(r"^diff --git .*$", diff_text, flags=re.M)[1:]
     for chunk in files:
         m = re.search(r"^\+\+\+ b/(.+)$", chunk, flags=re.M)
@@ -43,25 +44,36 @@ def apply_unified(diff_text, read):
             src = read(rel).split("\n")
         except OSError:
             return None
-        new, pos = [], 0
+        new, pos, shift = [], 0, 0
         for hm in re.finditer(r"^@@ -(\d+)(?:,(\d+))? \+\d+(?:,\d+)? @@.*\n((?:[ +\-\\].*\n?|\n)*)", chunk, flags=re.M):
             start = int(hm.group(1)) - 1
             if hm.group(2) == "0":
                 start += 1
-            new.extend(src[pos:start])
-            pos = start
+            ops = []
             for ln in hm.group(3).split("\n"):
-                if ln.startswith("\\") or (ln == "" ):
+                if ln.startswith("\\") or ln == "":
                     continue
-                tag, body = ln[0], ln[1:]
+                ops.append((ln[0], ln[1:]))
+            old = [b for t, b in ops if t in (" ", "-")]
+            # find the old lines at the recorded position, else nearby (nearest first), never before what was already consumed
+            found = None
+            for delta in sorted(range(-200, 201), key=abs):
+                at = start + shift + delta
+                if at < pos or at + len(old) > len(src):
+                    continue
+                if src[at:at + len(old)] == old:
+                    found = at
+                    break
+            if found is None:
+                return None
+            shift = found - start
+            new.extend(src[pos:found])
+            pos = found
+            for tag, body in ops:
                 if tag == " ":
-                    if pos >= len(src) or src[pos] != body:
-                        return None
                     new.append(body)
                     pos += 1
                 elif tag == "-":
-                    if pos >= len(src) or src[pos] != body:
-                        return None
                     pos += 1
                 elif tag == "+":
                     new.append(body)
